@@ -26,6 +26,7 @@ var errCustomPlain = errors.New("vf-custom-plain-error-77c1")
 //	{% xbump NAME %}           Bindings()[NAME]++ (a write through the map Bindings returns)
 //	{% xinfo ARGS %}           TagName, TagArgs, SourceFile, len(Bindings)
 //	{% xfile ARG %}            ExpandTagArg + RenderFile relative to SourceFile
+//	{% xcard EXPR %}           EvaluateString + RenderFile("card.html", the map EXPR yields)
 //	{% xfail ARGS %}           Errorf
 //	{% xwrapfail %}            WrapError(plain error)
 //	{% xplainfail %}           a plain error
@@ -82,6 +83,16 @@ func RegisterCustom(e *liquid.Engine) {
 		return c.RenderFile(filepath.Join(filepath.Dir(c.SourceFile()), strings.TrimSpace(a)), map[string]any{"xlocal": "L"})
 	}
 	e.RegisterTag("xfile", file)
+	// xcard EXPR: renders card.html with the entries of the map EXPR evaluates to as additional variables
+	// (include parameters in the style of Jekyll); the map comes straight out of the caller's bindings
+	e.RegisterTag("xcard", func(c render.Context) (string, error) {
+		v, err := c.EvaluateString(c.TagArgs())
+		if err != nil {
+			return "", err
+		}
+		params, _ := v.(map[string]any)
+		return c.RenderFile(filepath.Join(filepath.Dir(c.SourceFile()), "card.html"), params)
+	})
 	e.RegisterTag("xfail", func(c render.Context) (string, error) { return "", c.Errorf("custom failure %s", c.TagArgs()) })
 	e.RegisterTag("xwrapfail", func(c render.Context) (string, error) { return "", c.WrapError(errCustomPlain) })
 	e.RegisterTag("xplainfail", func(c render.Context) (string, error) { return "", errCustomPlain })
